@@ -7,7 +7,7 @@ from types import EllipsisType
 from typing import Any, Dict, Iterator, MutableMapping, Optional, Tuple, TypeVar, Union
 from .hook import AbstractHook
 from .jsonutils import dict_to_smpp_message, json_encode, json_loads
-from .protocol import DeliverSm, SmppMessage, SubmitSm
+from .protocol import DeliverSm, SmppMessage, SubmitSm, Trackable
 from .state import DLR_ERROR_OTHER_ERROR, SmppCommand, SmppCommandStatus
 from .utils import check_param
 
@@ -433,6 +433,11 @@ class SimpleCorrelator(AbstractCorrelator):
                         str(ref_num)
                     )
                     if segment_status:
+                        if isinstance(response, Trackable):
+                            # The response may be kept as last_response: it must carry the
+                            # tracking data before the segment status is persisted
+                            response.log_id = smpp_message.log_id
+                            response.extra_data = smpp_message.extra_data
                         if response.smpp_command == SmppCommand.GENERIC_NACK:
                             segment_status.status[str(seq_num)] = STATUS_FAILED
                             segment_status.last_response = response
